@@ -111,6 +111,23 @@ CHECKS['C18'] = dict(
          'only; termination of the Python loop is observed by time-out, the theorem is about the model.',
     technique='Lean 4 invariant proof over all inputs + differential correspondence check + direct totality oracle')
 
+CHECKS['C03'] = dict(
+    text=('Lean 4 theorems (XL.Props.C03) about the workbook model XL.Model.Book (constants, formulas, array formulas with '
+          'spill, defined names, blanks; formulas evaluated by XL.Model.Eval over the operator model of C02 and the array '
+          'model of C05): value_fixpoint (every cell satisfies its own equation), value_unique (the fixed point is '
+          'unique), value_fuel_irrelevant, value_order_independent (any permutation of an unambiguous cell list gives '
+          'the same values), formula_reads_only_its_references (locality of evaluation), blank_and_constant; a concrete '
+          'acyclic workbook meets the hypotheses (exBook_acyclic). The model is compared cell by cell with '
+          'ExcelModel.from_dict(...).calculate() on random acyclic multi-sheet/multi-book workbooks; the '
+          'implementation is additionally run in permuted insertion orders, through .xlsx files and under several '
+          'PYTHONHASHSEED values, and all results must coincide.'),
+    design='DESIGN.md §3 C03',
+    note=COMMON_NOTE + 'schedula (dispatch order, shrink), numpy and openpyxl are external: the model evaluates a workbook '
+         'by recursion on its references. Hash-seed independence and the equivalence of the file and dictionary paths '
+         'have no counterpart in a pure model and are observed on the implementation only. The function vocabulary of '
+         'the generated workbooks is the one XL.Model.Eval covers.',
+    technique='Lean 4 proof of a hand-written workbook model + differential correspondence check')
+
 NOT_YET = {
 }
 
